@@ -105,3 +105,21 @@ Example C04_nonvacuous :
   = (10, 13, 13, 7, 7, 6) /\
   snd (hh_query 1 2 2 b dt s (Some 1) None) = [([97], 7)].
 Proof. split; [cbn; repeat split; lia|]. vm_compute. split; reflexivity. Qed.
+
+(* the cell operations of C04_cell_add_abs / C04_cell_merge_abs are the bodies of the row loop of _add and of the cell
+   loop of _merge as regenerated from the source AST on this run (generated/KernelsHH.v; key arrays instantiated with
+   the model's padded arrays, the array comparison with keqb; cell_triple c = (ckey c, cnt c, klen c)) *)
+From Sketchnu Require KernelsHH KernelTieHH.
+Theorem C04_add_source_tie :
+  forall (cl : cell) (arr : key) (key_len value : Z), 0 <= cnt cl <= hh_cap -> 0 <= value <= hh_cap ->
+    KernelsHH.gen_hh_add_cell key keqb (ckey cl) (cnt cl) (klen cl) arr key_len value hh_cap
+    = KernelTieHH.cell_triple (cell_add cl arr key_len value).
+Proof. exact KernelTieHH.tie_hh_add. Qed.
+Print Assumptions C04_add_source_tie.
+
+Theorem C04_merge_source_tie :
+  forall a b : cell, 0 <= cnt a <= hh_cap -> 0 <= klen b < 256 ->
+    KernelsHH.gen_hh_merge_cell key keqb (ckey a) (cnt a) (klen a) (ckey b) (cnt b) (klen b) hh_cap
+    = KernelTieHH.cell_triple (cell_merge a b).
+Proof. exact KernelTieHH.tie_hh_merge. Qed.
+Print Assumptions C04_merge_source_tie.
